@@ -80,7 +80,19 @@ def do_ktrace(req):
     for i, r in enumerate(req['definition']['rules']):
         rule = sem.get_axiom(i + req['definition'].get('ordinal_offset', 0))
         scope = sem._cached_axiom_scopes[rule.ordinal]
-        out['convs'].append({'ordinal': rule.ordinal, 'rule': B.to_json(rule.pattern), 'varmap': [[k, v.name] for k, v in scope._metavars.items()]})
+        cv = {'ordinal': rule.ordinal, 'rule': B.to_json(rule.pattern), 'varmap': [[k, v.name] for k, v in scope._metavars.items()],
+              'subst': [], 'conv_substituted': B.to_json(rule.pattern), 'has': False}
+        sg = (req.get('rule_substs') or {}).get(str(i))
+        if sg is not None:
+            try:
+                subst = sem.convert_substitutions({k: kterm(v) for k, v in sg.items()}, rule.ordinal)
+                whole = {'k': 'rw', 'sort': r['sort'], 'l': ksubst(r['l'], sg), 'r': ksubst(r['r'], sg)}
+                cv['subst'] = [[k, B.to_json(v)] for k, v in subst.items()]
+                cv['conv_substituted'] = B.to_json(sem.convert_pattern(kterm(whole)))
+                cv['has'] = True
+            except EXC as e:
+                cv['error'] = type(e).__name__
+        out['convs'].append(cv)
     init = sem.convert_pattern(kterm(req['init']))
     out['init'] = B.to_json(init)
     pe = ExecutionProofExp(sem, init)
